@@ -87,7 +87,7 @@ def gen_tags_case(rng, tier):
         # the phased VCF that tags the reads is itself only partially phased
         ops[0]["thin"] = {"salt": rng.randrange(10**6), "rate": rng.choice([0.2, 0.4])}
     if rng.random() < 0.4:
-        ops[0].update(mode="render", nsets=rng.choice([1, 2, 3, 5]), salt=rng.randrange(10**6), ps_ids=rng.choice(["first", "random", "random"]))
+        ops[0].update(mode="render", nsets=rng.choice([1, 2, 3, 5]), salt=rng.randrange(10**6), ps_ids=rng.choice(["first", "random", "random", "random", "none", "zero"]))
     hopts = {}
     if rng.random() < 0.15:
         hopts["tag_supplementary"] = True
@@ -156,6 +156,12 @@ def render_vstar(world, path, tag, nsets, salt, ps_ids):
             ps = first if ps_ids == "first" else 1 + (h[2] * 65536 + h[3] * 256 + h[4]) % 900000
             if h[0] & 1:
                 al = (al[1], al[0])
+            if tag == "PS" and ps_ids == "none":
+                # phased by the '|' alone: no PS key in the record (the reader reports phase set 0)
+                r["calls"][s][0] = "%d|%d" % al
+                continue
+            if ps_ids == "zero":
+                ps = 0
             key = "PS" if tag == "PS" else "HP"
             if key not in r["format"]:
                 r["format"].append(key)
